@@ -82,11 +82,11 @@ theorem kernel_arrays_not_shared (tbl : List (String × String × List String)) 
 
 /-- what the predicate rejects: the array of the static Gaussian2D call bound to the result of a memoised function -/
 example : kernelArraysOk
-    [("VariableDensityPoissonMaskFunc.poisson:_poisson#0", "mask", ["alloc"]),
-     ("Gaussian1DMaskFunc.mask_func:gaussian_mask_1d#0", "mask[i]", ["copy", "copy"]),
-     ("Gaussian1DMaskFunc.mask_func:gaussian_mask_1d#1", "mask", ["copy", "copy", "view"]),
-     ("Gaussian2DMaskFunc.mask_func:gaussian_mask_2d#0", "mask[i]", ["cached-or-unknown-call:_acs_disk_mask", "copy"]),
-     ("Gaussian2DMaskFunc.mask_func:gaussian_mask_2d#1", "mask", ["cached-or-unknown-call:_acs_disk_mask", "copy", "view"])] = false := by
+    [("VariableDensityPoissonMaskFunc.poisson:_poisson", "mask", ["alloc"]),
+     ("Gaussian1DMaskFunc.mask_func:gaussian_mask_1d", "mask[i]", ["copy", "copy"]),
+     ("Gaussian1DMaskFunc.mask_func:gaussian_mask_1d", "mask", ["copy", "copy", "view"]),
+     ("Gaussian2DMaskFunc.mask_func:gaussian_mask_2d", "mask[i]", ["cached-or-unknown-call:_acs_disk_mask", "copy"]),
+     ("Gaussian2DMaskFunc.mask_func:gaussian_mask_2d", "mask", ["cached-or-unknown-call:_acs_disk_mask", "copy", "view"])] = false := by
   decide
 
 end DirectVerif.C07
